@@ -197,7 +197,7 @@ def check(an: Analysis) -> None:
             if isinstance(r, ast.Call) and an.callee(fi, r) == "builtins.id":
                 pass
             elif (isinstance(r, ast.Call) and an.callee(fi, r) == "weakref.ref") or is_name(r, s.recv):
-                ob6.fail(fi, recv_expr, "receiver key component compares by == / hash of the receiver, not identity: two equal instances share cached results")
+                ob6.fail(fi, recv_expr, "receiver key component compares by == / hash of the receiver, not identity: two equal instances share cached results", construct="ref(<receiver>)" if isinstance(r, ast.Call) else "<receiver>")
             else:
                 raise AnalysisError(f"C12.6: unrecognised receiver key component `{stmt_text(recv_expr)}` in {fi.short}")
         # ---------------- C12.2
